@@ -29,7 +29,7 @@ type c08Residue struct {
 
 // scanResidue iterates the raw database. Allowed residue: serialized transactions in the pending
 // bucket (t/m) that also pay or spend a surviving wallet.
-func scanResidue(dir string, removed *sim.WalletKeys, survivors map[[32]byte]bool, v *sim.View) ([]c08Residue, int, error) {
+func scanResidue(dir string, removed *sim.WalletKeys, survivors map[[32]byte]bool, v *sim.View, allOuts map[wire.OutPoint]*sim.Out) ([]c08Residue, int, error) {
 	db, err := leveldb.OpenFile(dir, &opt.Options{ErrorIfMissing: true})
 	if err != nil {
 		return nil, 0, err
@@ -71,6 +71,10 @@ func scanResidue(dir string, removed *sim.WalletKeys, survivors map[[32]byte]boo
 					}
 					for _, in := range tx.TxIn {
 						if o := v.Outs[in.PreviousOutPoint]; o != nil && o.HasHash && survivors[o.Hash] {
+							needed = true
+						}
+						// the spent output may live on an abandoned branch
+						if o := allOuts[in.PreviousOutPoint]; o != nil && o.HasHash && survivors[o.Hash] {
 							needed = true
 						}
 					}
@@ -298,6 +302,31 @@ func c08Case(t *core.T, big bool) {
 		t.Inconclusive("handler not idle")
 		return
 	}
+	// the chain keeps moving after the removal: reorganisations that disconnect blocks from
+	// before it (transactions that paid or spent both the removed wallet and a survivor)
+	if !big {
+		for i := 0; i < t.R.Range(0, 3); i++ {
+			h := int(wd.N.Height())
+			d := t.R.Range(1, minInt(6, h-2))
+			nb, _, err := wd.Fork(d, d+t.R.Range(0, 1), 2)
+			if err != nil {
+				t.Fatalf("fork: %v", err)
+			}
+			if nb != nil {
+				wd.W.Deliver(nb)
+				wd.Logf("(reorg after the removal)")
+			}
+			b, err := wd.Extend(t.R.Range(0, 2))
+			if err != nil {
+				t.Fatalf("extend: %v", err)
+			}
+			wd.W.Deliver(b)
+		}
+		if !wd.Settle() {
+			t.Inconclusive("handler not idle")
+			return
+		}
+	}
 	// survivors intact
 	t.Eval(1)
 	if d := wd.CheckLedger(sim.CompareOpts{Histories: true, AddrBal: true}); len(d) > 0 {
@@ -389,7 +418,17 @@ func c08Case(t *core.T, big bool) {
 		}
 	}
 	t.Eval(1)
-	res, nkv, err := scanResidue(wd.W.Dir, victim, surv, v)
+	allOuts := map[wire.OutPoint]*sim.Out{}
+	for _, b := range wd.N.AllBlocks() {
+		for _, tx := range b.Msg.Transactions {
+			h := tx.TxHash()
+			for i, o := range tx.TxOut {
+				op := wire.OutPoint{Hash: h, Index: uint32(i)}
+				allOuts[op] = sim.ReadOut(op, o, b.Height, false)
+			}
+		}
+	}
+	res, nkv, err := scanResidue(wd.W.Dir, victim, surv, v, allOuts)
 	if err != nil {
 		t.Fatalf("scan: %v", err)
 	}
